@@ -156,11 +156,12 @@ template <class Solver>
 static void run_history(vf::Ctx& ctx, const Problem& P, Solver& es, vw::OpCtl& ctl)
 {
     auto& r = ctx.rng;
-    const int len = (int) r.range(1, ctx.thorough ? 8 : 4);
+    const bool thor = ctx.thorough && P.clean;   // corpus cases are the same in both tiers
+    const int len = (int) r.range(1, thor ? 8 : 4);
     std::string word;
     bool inited = false, computed_since_init = false, converged_since_init = false;
     const auto tols = TolSet<T>::get();
-    const long big = ctx.thorough ? 1000 : 300;
+    const long big = thor ? 1000 : 300;
     const std::vector<long> maxits = {0, 1, 2, 3, 5, 10, big, big, big};
     const char* startkind = "default";
     long restarts_total = 0;
